@@ -147,6 +147,10 @@ func (i *interpreter) split(s value, sep string, n int) []value {
 		return nil
 	}
 	p := i.path
+	ckey := fmt.Sprintf("split|%s|%q|%d", tStr(s), sep, n)
+	if c, ok := p.memo[ckey]; ok {
+		return c.([]value)
+	}
 	var parts []value
 	rest := s
 	for {
@@ -157,17 +161,55 @@ func (i *interpreter) split(s value, sep string, n int) []value {
 			i.path.obls = append(i.path.obls, &Obligation{Kind: "unwind", Msg: fmt.Sprintf("Split: more than %d parts", i.ex.Unwind), Status: "undecided"})
 			panic(pathEnd{reason: "unwind", detail: "split"})
 		}
-		idx := p.mkIndexOf(rest, sep, int64(0))
-		if !i.branch(p.mkIntCmp(">=", idx, int64(0))) {
+		if len(sep) == 1 {
+			if head, tail, found := p.splitFirst(rest, sep); found == 1 {
+				parts = append(parts, head)
+				rest = tail
+				continue
+			} else if found == 0 {
+				break
+			}
+		}
+		if !i.branch(mkContains(rest, sep)) {
 			break
 		}
-		idx = i.compact(idx)
-		parts = append(parts, i.compact(p.mkSubstr(rest, int64(0), idx)))
-		start := p.mkAdd(idx, int64(len(sep)))
-		rest = i.compact(p.mkSubstr(rest, start, p.mkSub(p.mkLen(rest), start)))
+		// word equation: rest = a ++ sep ++ b with the first occurrence of sep at |a|
+		a := p.freshVar("sp", SStr)
+		b := p.freshVar("sr", SStr)
+		p.pc = append(p.pc, "(= "+tStr(rest)+" (str.++ "+a.e+" "+smtStr(sep)+" "+b.e+"))")
+		if len(sep) == 1 {
+			p.pc = append(p.pc, "(not (str.contains "+a.e+" "+smtStr(sep)+"))")
+		} else {
+			p.pc = append(p.pc, "(not (str.contains (str.++ "+a.e+" "+smtStr(sep[:len(sep)-1])+") "+smtStr(sep)+"))")
+		}
+		p.facts["nc|"+a.e+"|"+sep] = true
+		parts = append(parts, a)
+		rest = b
 	}
 	parts = append(parts, rest)
+	p.memo[ckey] = parts
 	return parts
+}
+
+// splitFirst finds the first occurrence of a one-byte separator syntactically:
+// found = 1 (head/tail returned), 0 (provably absent), -1 (unknown).
+func (p *Path) splitFirst(s value, sep string) (head, tail value, found int) {
+	segs := segmentsOf(s)
+	for k, sg := range segs {
+		switch sg := sg.(type) {
+		case string:
+			if j := strings.Index(sg, sep); j >= 0 {
+				head = mkConcat(concatOf(segs[:k]), sg[:j])
+				tail = mkConcat(sg[j+1:], concatOf(segs[k+1:]))
+				return head, tail, 1
+			}
+		case *Sym:
+			if !p.facts["nc|"+sg.e+"|"+sep] {
+				return nil, nil, -1
+			}
+		}
+	}
+	return nil, nil, 0
 }
 
 // ---------------------------------------------------------------- numbers
@@ -414,7 +456,7 @@ func init() {
 	reg := func(name string, h intrinsic) { intrinsics[name] = h }
 
 	// ---- strings / bytes predicates
-	reg("strings.Contains", func(fr *frame, a []value) value { return mkContains(a[0], a[1]) })
+	reg("strings.Contains", func(fr *frame, a []value) value { return fr.i.path.containsV(a[0], a[1]) })
 	reg("bytes.Contains", func(fr *frame, a []value) value {
 		return mkContains(fr.i.strArg(a[0]), fr.i.strArg(a[1]))
 	})
